@@ -60,7 +60,7 @@ mutual
 /-- the argument types C11 lists: no direct-format type, no filesystem path, no non trivially copyable deferred type
     anywhere inside -/
 def listed : Arg → Bool
-  | .seq _ _ elems => listedL elems
+  | .seq ki es elems => !copiesPairs ki es && listedL elems
   | .optSome a => listed a
   | .pair a b => listed a && listed b
   | .tuple l => listedL l
@@ -93,7 +93,9 @@ theorem listed_argEvents : ∀ (a : Arg), listed a = true → argEvents a = []
   | .cstr _, _ => by simp [argEvents]
   | .carr _, _ => by simp [argEvents]
   | .str _, _ => by simp [argEvents]
-  | .seq _ _ elems, h => by simp only [listed] at h; simp [argEvents, listedL_argEvents elems h]
+  | .seq ki es elems, h => by
+    simp only [listed, Bool.and_eq_true, Bool.not_eq_true'] at h
+    simp [argEvents, h.1, listedL_argEvents elems h.2]
   | .optNone _, _ => by simp [argEvents]
   | .optSome a, h => by simp only [listed] at h; simp [argEvents, listed_argEvents a h]
   | .pair a b, h => by
@@ -124,7 +126,13 @@ theorem format_count : ∀ (a : Arg), ((argEvents a).filter isFormat).length = 2
   | .cstr _ => by simp [argEvents, countDirect]
   | .carr _ => by simp [argEvents, countDirect]
   | .str _ => by simp [argEvents, countDirect]
-  | .seq _ _ elems => by simp [argEvents, countDirect, format_countL elems]
+  | .seq ki es elems => by
+    have hrep : ∀ n, ((List.replicate n Event.pairCopy).filter isFormat).length = 0 := by
+      intro n; induction n with
+      | zero => rfl
+      | succ n ih => simpa [List.replicate_succ, isFormat] using ih
+    simp only [argEvents, countDirect, count_append, format_countL elems]
+    split <;> simp [hrep]
   | .optNone _ => by simp [argEvents, countDirect]
   | .optSome a => by simp [argEvents, countDirect, format_count a]
   | .pair a b => by
